@@ -59,6 +59,13 @@ pub struct Nested {
     pub b: String,
 }
 
+/// The concrete type generic programs are instantiated with (family "generic"): an argument of type `GenT`.
+#[cosmwasm_schema::cw_serde]
+pub struct GenVal {
+    pub g: u32,
+}
+impl sylvia::cw_std::CustomMsg for GenVal {}
+
 /// The message type of user-supplied (overriding) entry points: any JSON object.
 #[cosmwasm_schema::cw_serde]
 pub struct OvMsg {}
